@@ -66,13 +66,14 @@ def optTime : Option Time → String
   | none => "-"
 
 def sortStrings (xs : List String) : List String := (xs.toArray.qsort (· < ·)).toList
+def dedupS (xs : List String) : List String := xs.foldl (fun acc x => if acc.contains x then acc else acc ++ [x]) []
 
 def renderReq (r : Req) : String :=
-  s!"g={ref 'G' r.id} c={r.client.id} gs={encList r.grantedScopes} ga={encList r.grantedAud} sub={r.sess.subject} xa={optTime r.sess.expAccess} xr={optTime r.sess.expRefresh} xc={optTime r.sess.expCode} f={encList (sortStrings (r.form.map (·.1)))}"
+  s!"g={ref 'G' r.id} c={r.client.id} gs={encList r.grantedScopes} ga={encList r.grantedAud} sub={r.sess.subject} xa={optTime r.sess.expAccess} xr={optTime r.sess.expRefresh} xc={optTime r.sess.expCode} xd={optTime r.sess.expDevice} xu={optTime r.sess.expUser} xp={optTime r.sess.expPar} f={encList (sortStrings (dedupS (r.form.map (·.1))))}"
 
 def renderRes : Res → String
   | .ok => "ok" | .notFound => "notfound" | .req _ => "ok" | .inactive _ => "inactive"
-  | .client _ => "ok" | .nat _ => "ok" | .fail e => "err:" ++ e.wire
+  | .client _ => "ok" | .nat _ => "ok" | .par _ => "ok" | .dev _ => "ok" | .usedDev _ => "used" | .fail e => "err:" ++ e.wire
 
 def renderCall : Call × Res → String
   | (.getClient id, r) => s!"getClient({id})={renderRes r}"
@@ -94,6 +95,13 @@ def renderCall : Call × Res → String
   | (.createOIDC c q, r) => s!"createOIDC(full:{ref 'C' c},{ref 'G' q.id})={renderRes r}"
   | (.getOIDC k, r) => s!"getOIDC(full:{refOpt 'C' k})={renderRes r}"
   | (.deleteOIDC k, r) => s!"deleteOIDC(full:{refOpt 'C' k})={renderRes r}"
+  | (.createPAR q, r) => s!"createPAR({match r with | .nat n => ref 'P' n | _ => "?"},{ref 'G' q.req.id})={renderRes r}"
+  | (.getPAR k, r) => s!"getPAR({refOpt 'P' k})={renderRes r}"
+  | (.deletePAR k, r) => s!"deletePAR({refOpt 'P' k})={renderRes r}"
+  | (.createDevice q, r) => s!"createDevice({match r with | .nat n => ref 'D' n ++ "," ++ ref 'U' (n + 1) | _ => "?"},{ref 'G' q.req.id})={renderRes r}"
+  | (.getDevice k, r) => s!"getDevice({refOpt 'D' k})={renderRes r}"
+  | (.invalidateDevice k, r) => s!"invalidateDevice({refOpt 'D' k})={renderRes r}"
+  | (.authenticateUser n _, r) => s!"authenticateUser({n})={renderRes r}"
   | (.beginTx, r) => s!"beginTx={renderRes r}"
   | (.commitTx, r) => s!"commitTx={renderRes r}"
   | (.rollbackTx, r) => s!"rollbackTx={renderRes r}"
@@ -108,6 +116,8 @@ def renderOut : Out → String
   | .tokens a r i e sc => s!"tokens at={ref 'A' a} rt={refNew 'R' r} id={b01 i} exp={e} scope={encList sc}"
   | .active u r => s!"active use={u} {renderReq r}"
   | .inactive e => "inactive " ++ e.wire
+  | .device d u e => s!"device dc={ref 'D' d} uc={ref 'U' u} exp={e}"
+  | .par u e => s!"par uri={ref 'P' u} exp={e}"
 
 def renderDump (s : Store) : String :=
   let codes := s.codes.map (fun (k, r) => s!"{ref 'C' k}:{b01 r.active}:{renderReq r.req}")
@@ -116,8 +126,10 @@ def renderDump (s : Store) : String :=
   let atIdx := s.atIdx.map (fun (k, v) => s!"{ref 'G' k}>{ref 'A' v}")
   let rtIdx := s.rtIdx.map (fun (k, v) => s!"{ref 'G' k}>{ref 'R' v}")
   let pkce := s.pkce.map (fun (k, r) => s!"{ref 'C' k}:{renderReq r}")
-  let oidc := s.oidc.map (fun (k, r) => s!"full:{ref 'C' k}:{renderReq r}")
-  s!"codes[{"; ".intercalate codes}] access[{"; ".intercalate access}] refresh[{"; ".intercalate refresh}] atIdx[{" ".intercalate atIdx}] rtIdx[{" ".intercalate rtIdx}] pkce[{"; ".intercalate pkce}] oidc[{"; ".intercalate oidc}]"
+  let oidc := s.oidc.map (fun (k, r) => s!"full:{refOpt 'C' (some k)}:{renderReq r}")
+  let par := s.par.map (fun (k, p) => s!"{ref 'P' k}:rt={encList p.responseTypes}:redir={p.redirect}:state={p.state}:{renderReq p.req}")
+  let device := s.device.map (fun (k, d) => s!"{ref 'D' k}:{d.state}:{b01 d.used}:{renderReq d.req}")
+  s!"codes[{"; ".intercalate codes}] access[{"; ".intercalate access}] refresh[{"; ".intercalate refresh}] atIdx[{" ".intercalate atIdx}] rtIdx[{" ".intercalate rtIdx}] pkce[{"; ".intercalate pkce}] oidc[{"; ".intercalate oidc}] par[{"; ".intercalate par}] device[{"; ".intercalate device}]"
 
 /-! ### parsing -/
 
@@ -147,7 +159,10 @@ def parseCfg (fs : List String) : Config :=
     enforcePKCE := parseBool (kv fs "pkce"),
     enforcePKCEPublic := parseBool (kv fs "pkcePublic"),
     enablePlain := parseBool (kv fs "plain"),
-    disableRefreshIntrospect := parseBool (kv fs "noRtIntrospect") }
+    disableRefreshIntrospect := parseBool (kv fs "noRtIntrospect"),
+    deviceLife := (kv fs "deviceLife").toInt?.getD (10 * 60 * 1000000000),
+    parLife := (kv fs "parLife").toInt?.getD (5 * 60 * 1000000000),
+    enforcePAR := parseBool (kv fs "enforcePAR") }
 
 def tokenForm (grant : String) (clientId : String) (extra : List (String × String)) : List (String × String) :=
   [("grant_type", grant), ("client_id", clientId)] ++ extra.filter (fun p => p.2 != "")
@@ -180,6 +195,22 @@ def parseOp (n : Names) (fs : List String) : Option Op :=
     some (.revoke { clientId := client, credOk := parseBool cred, token := parsePresented n tok, hint := parseHint hint })
   | ["introspect", tok, hint, scopes] =>
     some (.introspect { token := parsePresented n tok, hint := parseHint hint, scopes := decList scopes })
+  | ["cc", client, cred, scopes, aud] =>
+    let ccForm := tokenForm "client_credentials" client
+      [("scope", " ".intercalate (decList scopes)), ("audience", " ".intercalate (decList aud))]
+    some (.clientCredentials { clientId := client, credOk := parseBool cred, scopes := decList scopes, aud := decList aud, form := ccForm })
+  | ["password", client, cred, user, pwgiven, userok, scopes, aud] =>
+    some (.password { clientId := client, credOk := parseBool cred, username := user, passwordGiven := parseBool pwgiven, userOk := parseBool userok, subject := "sub-" ++ user, scopes := decList scopes, aud := decList aud, form := tokenForm "password" client [("username", user), ("password", if parseBool pwgiven then "x" else ""), ("scope", " ".intercalate (decList scopes)), ("audience", " ".intercalate (decList aud))] })
+  | ["deviceAuthorize", client, cred, formClient, scopes, aud] =>
+    some (.deviceAuthorize { clientId := client, credOk := parseBool cred, formClientId := formClient, scopes := decList scopes, aud := decList aud, form := [("client_id", formClient)].filter (fun p => p.2 != "") ++ [("scope", " ".intercalate (decList scopes)), ("audience", " ".intercalate (decList aud))].filter (fun p => p.2 != "") })
+  | ["deviceDecide", dev, verdict, gs, ga, sub] =>
+    (n.resolve dev).map (fun sig => .deviceDecide sig (verdict == "accept") (decList gs) (decList ga) sub)
+  | ["devicePoll", client, cred, dev] =>
+    some (.devicePoll { clientId := client, credOk := parseBool cred, code := parsePresented n dev, form := tokenForm "urn:ietf:params:oauth:grant-type:device_code" client [("device_code", dev)] })
+  | ["parPush", client, cred, hasUri, bodySecret, rts, redirect, secure, state, nonce, scopes, aud, challenge, method] =>
+    some (.parPush { credOk := parseBool cred, hasRequestUri := parseBool hasUri, extraForm := (if parseBool bodySecret then [("client_secret", "x")] else []) ++ (if parseBool hasUri then [("request_uri", "x")] else []), q := { clientId := client, responseTypes := decList rts, redirect := redirect, redirectSecure := parseBool secure, state := state, nonce := nonce, scopes := decList scopes, aud := decList aud, challenge := challenge, method := method } })
+  | ["authorizePar", client, uri, extra, gs, ga, sub] =>
+    some (.authorizePar { clientId := client, uri := n.resolve uri, extra := [("request_uri", uri)] ++ (decList extra).map (fun k => (k, "x")), grantScopes := decList gs, grantAud := decList ga, subject := sub })
   | _ => none
 
 structure HistState where
@@ -192,7 +223,10 @@ def histStep (h : HistState) (line : String) : HistState × String :=
   match parseOp h.names (fields line) with
   | none => (h, "bad-op")
   | some op =>
-    let (m', out, log) := step h.m op
+    let m0 := match fields line with
+      | "cfg" :: rest => { h.m with ss := { h.m.ss with devMark := parseBool (kv rest "devMark") } }
+      | _ => h.m
+    let (m', out, log) := step m0 op
     let raw := renderOut out ++ " || " ++ " ".intercalate (log.map renderCall) ++ " || " ++ renderDump m'.ss.store
     let (names', txt) := h.names.rewrite raw
     ({ m := m', names := names' }, txt)
